@@ -10,10 +10,23 @@ HARNESS = ("h_aggregator", ["h_aggregator.cpp"], {})
 # ------------------------------------------------------------------------------------------------
 
 def parse_script(txt):
-    """'y,a,t3*y,ar' -> (pre, cyc) lists of acts ('y' | 'a' | 'ar' | 't3'); 'ar' = await, then fetch the argument again"""
+    """'y,a,t3*yl,ar' -> (pre, cyc) lists of acts ('y' | 'yl' | 'a' | 'ar' | 't3'); 'ar' = await, then fetch the argument
+    again; 'yl' = yield an lvalue that outlives the yield (accumulator / script element) and look at it again afterwards"""
     pre, _, cyc = txt.partition("*")
     f = lambda t: [x for x in t.split(",") if x and x != "-"]
     return f(pre), f(cyc)
+
+
+YIELDS = ("y", "yl")
+
+# access styles (harness grammar): reference styles n i c, future styles f w x d q j and their capital twins (one future
+# object re-used with result_of / operator<<)
+REF_STYLES = "nic"
+FUT_STYLES = "fwxdqjFWXDQJ"
+BLOCKING = "niwxdjWXDJ"
+MAY_PEND = "cfqFQ"
+STYLE_TEXT = {"n": "next()/value()", "i": "iterator", "c": "co_await next()", "f": "co_await val.has_value()",
+              "w": "if (val)", "x": "if (!val)", "d": "*val", "q": "co_await val", "j": "sync()+value()", "poll": "ready()+value()"}
 
 
 def act_at(script, p):
@@ -58,7 +71,7 @@ class Sim:
             if a in ("a", "ar"):
                 self.st[k] = "inflight"
                 return False
-            self.res[k] = "val" if a == "y" else "exc"
+            self.res[k] = "val" if a in YIELDS else "exc"
         self.st[k] = "queued"
         self.q.append(k)
         return True
@@ -129,14 +142,16 @@ def first_illegal(lines, upto):
         for i, op in enumerate(lines[1:upto + 2]):
             w = op.split()
             o = w[0]
-            if o in ("next", "inext"):
+            if o in ("next", "inext", "pnext"):
                 if pending or sim.ag == "failed":
+                    return i
+                if o == "pnext" and (len(w) != 3 or w[1] not in BLOCKING):
                     return i
                 r, _ = sim.access()
                 if r == "pending":
                     return i
             elif o in ("fnext", "cnext"):
-                if pending or sim.ag == "failed" or (o == "fnext" and sim.ag == "done"):
+                if pending or sim.ag == "failed":
                     return i
                 r, _ = sim.access()
                 pending = r == "pending"
@@ -148,7 +163,7 @@ def first_illegal(lines, upto):
                         return i
                     r, _ = sim.access()
                     if r == "pending":
-                        if acc[0] not in "cf" or j != len(w) - 2:
+                        if acc[0] not in MAY_PEND or j != len(w) - 2:
                             return i
                         pending = True
             elif o == "bnext":
@@ -192,47 +207,80 @@ def first_illegal(lines, upto):
     return None
 
 
-def gen_script(rng, kind, p_ar=0.0):
+def gen_script(rng, kind, p_ar=0.0, p_yl=0.0, p_throw=0.25):
     """kind: sync-finite, async-finite, sync-inf, async-inf ; finite ones may throw at the end.
-    p_ar: share of the awaits after which the source fetches its argument again (`ar`)"""
+    p_ar: share of the awaits after which the source fetches its argument again (`ar`)
+    p_yl: share of the yields that yield an lvalue the source looks at again (`yl`)"""
     pa = 0.0 if kind.startswith("sync") else rng.choice([0.25, 0.5])
     def acts(n, need_y=False):
-        out = [("ar" if rng.random() < p_ar else "a") if rng.random() < pa else "y" for _ in range(n)]
-        if need_y and "y" not in out:
-            out[rng.randrange(len(out))] = "y"
+        out = [("ar" if rng.random() < p_ar else "a") if rng.random() < pa else ("yl" if rng.random() < p_yl else "y")
+               for _ in range(n)]
+        if need_y and not any(a in YIELDS for a in out):
+            out[rng.randrange(len(out))] = "yl" if rng.random() < p_yl else "y"
         return out
     if kind.endswith("inf"):
         pre = acts(rng.randint(0, 3))
         cyc = acts(rng.randint(1, 3), need_y=True)
         return pre, cyc
     pre = acts(rng.choice([0, 1, 1, 2, 2, 3, 3, 4, 5, 6]))
-    if rng.random() < 0.25:
+    if rng.random() < p_throw:
         pre.append("t%d" % rng.randint(1, 9))
     return pre, []
 
 
+MODES = ["v", "v", "a", "r", "r", "s", "s", "s", "t", "t"]
+
+
 def gen_case(rng, max_ops):
     n = rng.choice([0, 1, 1, 2, 2, 2, 3, 3, 3, 4, 4, 5])
-    # v: no argument; a: int argument; r: argument object with tracked life time (copy/move/destroy visible)
-    mode = rng.choice(["v", "v", "v", "a", "r", "r"])
-    p_ar = 0.0 if mode == "v" else rng.choice([0.0, 0.5, 1.0])
+    # v: no argument; a: int argument; r: argument object with tracked life time (copy/move/destroy visible);
+    # s: VALUES of a tracked type whose move empties the source object; t: both
+    mode = rng.choice(MODES)
+    has_arg = mode in "art"
+    p_ar = 0.0 if not has_arg else rng.choice([0.0, 0.5, 1.0])
+    p_yl = rng.choice([0.0, 0.5, 1.0, 1.0])
     flavour = rng.random()
+    # exception focus: finite sources, at least one of them throwing (after 0, 1, n values), the whole case read in ONE
+    # access style and run to the end, so that every style meets the report of a failed source
+    exc_focus = rng.random() < 0.2 and n > 0
     scripts = []
     for _ in range(n):
-        if flavour < 0.25:
+        if exc_focus:
+            kind = rng.choice(["sync-finite", "async-finite"])
+        elif flavour < 0.25:
             kind = rng.choice(["sync-finite", "sync-finite", "sync-inf"])
         elif flavour < 0.45:
             kind = rng.choice(["async-finite", "async-inf"])
         else:
             kind = rng.choice(["sync-finite", "async-finite", "async-finite", "sync-inf", "async-inf"])
-        scripts.append(gen_script(rng, kind, p_ar))
+        scripts.append(gen_script(rng, kind, p_ar, p_yl, 0.4 if exc_focus else 0.25))
+    if exc_focus and not any(pre and pre[-1].startswith("t") for pre, _ in scripts):
+        k = rng.randrange(n)
+        pre = scripts[k][0]
+        # throws after 0, 1 or all of its values
+        cut = rng.choice([0, 1, len(pre)])
+        scripts[k] = (pre[:cut] + ["t%d" % rng.randint(1, 9)], [])
     sim = Sim(scripts)
     lines = ["case 0 agg %s %d %s" % (mode, n, " ".join(script_text(*s) for s in scripts))]
     lines[0] = lines[0].rstrip()
     arg = 500
     thr = rng.choice([0.0, 0.3, 0.6])          # how often a second thread is used
-    p_destroy = rng.choice([0.0, 0.02, 0.08])  # early destruction per step
+    p_destroy = 0.0 if exc_focus else rng.choice([0.0, 0.02, 0.08])  # early destruction per step
     p_batch = rng.choice([0.0, 0.2, 0.2, 0.6])  # accesses grouped inside one consumer coroutine
+    ref_ok = REF_STYLES if mode in "vs" else "nc"
+    one = rng.choice(ref_ok + FUT_STYLES + "P") if exc_focus else None     # P = polled future (fnext)
+    if exc_focus:
+        max_ops = 200
+        p_batch = 0.0 if one == "P" else rng.choice([0.0, 0.5, 1.0])
+
+    def pick(cands):
+        """a style out of cands (the case's single style if it has one and it is possible here)"""
+        if one and one in cands:
+            return one
+        if one and one.lower() in cands:
+            return one.lower()
+        return rng.choice(cands)
+
     pending = False
     ops = 0
     after_end = 0
@@ -254,7 +302,11 @@ def gen_case(rng, max_ops):
             if after_end >= 1 or rng.random() < 0.5:
                 break
             after_end += 1
-            lines.append("%s %d" % (rng.choice(["next", "cnext"] + (["inext"] if mode == "v" else [])), arg))
+            st = rng.choice(["next", "cnext", "pnext", "fnext"] + (["inext"] if mode in "vs" else []))
+            if st == "pnext":
+                lines.append("pnext %s %d" % (rng.choice([c for c in BLOCKING if c in ref_ok + FUT_STYLES]), arg))
+            else:
+                lines.append("%s %d" % (st, arg))
             arg += 1
             continue
         # parked at init / yield
@@ -283,12 +335,12 @@ def gen_case(rng, max_ops):
                 probe = sim.clone()
                 res, _ = probe.access()
                 if res == "pending":
-                    accs.append("%s:%d" % (rng.choice("cf"), arg))
+                    accs.append("%s:%d" % (pick(MAY_PEND), arg))
                     arg += 1
                     sim.access()
                     pending = True
                     break
-                accs.append("%s:%d" % (rng.choice("nncccfw" + ("i" if mode == "v" else "")), arg))
+                accs.append("%s:%d" % (pick("nnccc" + FUT_STYLES + FUT_STYLES + ("i" if mode in "vs" else "")), arg))
                 arg += 1
                 sim.access()
                 if res in ("end", "exc"):
@@ -299,9 +351,9 @@ def gen_case(rng, max_ops):
         probe = sim.clone()
         q_empty = not probe.q
         res, pushed = probe.access()
-        styles = ["fnext", "cnext"]
+        styles = ["fnext", "cnext", "B"]        # B = a batch of one access in a style that may stay pending
         if res != "pending":
-            styles += ["next", "next"] + (["inext"] if mode == "v" else [])
+            styles += ["next", "pnext", "pnext", "pnext"] + (["inext"] if mode in "vs" else [])
         elif q_empty and not pushed and rng.random() < max(thr, 0.15):
             # blocking access with a second thread completing sources
             sim.access()
@@ -322,7 +374,22 @@ def gen_case(rng, max_ops):
             arg += 1
             continue
         st = rng.choice(styles)
-        lines.append("%s %d" % (st, arg))
+        if one:
+            # the single style of the case, in the form that is possible here
+            if one == "P":
+                st = "fnext"
+            elif one in BLOCKING and res != "pending":
+                st = "pnext"
+            elif one in MAY_PEND:
+                st = "B"
+            elif res == "pending":
+                st = "B" if one.lower() in MAY_PEND else rng.choice(["fnext", "cnext"])
+        if st == "pnext":
+            lines.append("pnext %s %d" % (pick([c for c in BLOCKING if c in ref_ok + FUT_STYLES]), arg))
+        elif st == "B":
+            lines.append("batch %s:%d" % (pick(MAY_PEND), arg))
+        else:
+            lines.append("%s %d" % (st, arg))
         arg += 1
         res, _ = sim.access()
         pending = res == "pending"
@@ -348,7 +415,38 @@ def parse_p(words):
     return None
 
 
-ACCESS = ("next", "inext", "fnext", "cnext", "bnext")
+ACCESS = ("next", "inext", "fnext", "cnext", "bnext", "pnext")
+OP_STYLE = {"next": "n", "inext": "i", "fnext": "poll", "cnext": "c", "bnext": "n"}
+
+
+def style_results(case, out):
+    """[(style letter, result)] of every access of the case that completed ('poll' = fnext), from the trace"""
+    res = []
+    pend_style = None
+    for op, line in zip(case["lines"][1:], out):
+        w = op.split()
+        head, evs = parse_line(line)
+        if not head or head[0] != w[0]:
+            continue
+        rs = [x for x in head[1:] if not x.startswith("p=")]
+        if w[0] == "batch":
+            for acc, r in zip(w[1:], rs):
+                if r == "pending":
+                    pend_style = acc[0]
+                else:
+                    res.append((acc[0], r))
+        elif w[0] == "pnext" and rs:
+            res.append((w[1], rs[0]))
+        elif w[0] in OP_STYLE and rs:
+            if rs[0] == "pending":
+                pend_style = OP_STYLE[w[0]]
+            else:
+                res.append((OP_STYLE[w[0]], rs[0]))
+        for e in evs:
+            if e.startswith("got=") and pend_style:
+                res.append((pend_style, e[4:]))
+                pend_style = None
+    return res
 
 
 class AggSuite(Suite):
@@ -373,14 +471,18 @@ class AggSuite(Suite):
         hdr = case["lines"][0].split()
         n = int(hdr[4])
         vals = sum(1 for l in out for w in l.split() if w.startswith("v:") or w.startswith("got=v:"))
-        special = any(l.split()[0] in ("res", "tres", "bnext", "destroy", "cdestroy", "batch") for l in case["lines"][1:]) or \
+        special = any(l.split()[0] in ("res", "tres", "bnext", "destroy", "cdestroy", "batch", "pnext") for l in case["lines"][1:]) or \
             any("exc:" in l for l in out)
         return (n >= 2 and vals >= 3) or special
 
     def stats(self, cases, outs):
         ops, nsrc, kinds = {}, {}, {"finite": 0, "infinite": 0, "async": 0, "throwing": 0, "fetching_argument_again_after_await": 0}
-        modes = {"v": 0, "a": 0, "r": 0}
+        modes = {"v": 0, "a": 0, "r": 0, "s": 0, "t": 0}
         results = {"v": 0, "end": 0, "exc": 0, "pending": 0}
+        kinds["yielding_an_lvalue_they_look_at_again"] = 0
+        kinds["throwing_before_first_value"] = kinds["throwing_after_1_value"] = kinds["throwing_after_2_or_more_values"] = 0
+        by_style = {}             # style -> {v, end, exc}
+        lv_looks = lv_looks_tracked = moved_out = 0
         early = drained = codrained = late = late_after_other_access = 0
         instyles = {}
         for c in cases:
@@ -393,6 +495,11 @@ class AggSuite(Suite):
                 kinds["async"] += 1 if "a" in pre + cyc or "ar" in pre + cyc else 0
                 kinds["fetching_argument_again_after_await"] += 1 if hdr[3] != "v" and "ar" in pre + cyc else 0
                 kinds["throwing"] += 1 if any(a.startswith("t") for a in pre) else 0
+                kinds["yielding_an_lvalue_they_look_at_again"] += 1 if "yl" in pre + cyc else 0
+                if any(a.startswith("t") for a in pre):
+                    ny = sum(1 for a in pre if a in YIELDS)
+                    kinds["throwing_before_first_value" if ny == 0 else "throwing_after_1_value" if ny == 1
+                          else "throwing_after_2_or_more_values"] += 1
             for l in c["lines"][1:-1]:
                 k = l.split()[0]
                 ops[k] = ops.get(k, 0) + 1
@@ -403,6 +510,13 @@ class AggSuite(Suite):
                     early += 1
                     drained += 1 if len(l.split()) > 1 else 0
                     codrained += 1 if len(l.split()) > 1 and k == "cdestroy" else 0
+            for st, r in style_results(c, outs.get(str(c["id"]), [])):
+                d = by_style.setdefault(st, {"v": 0, "end": 0, "exc": 0})
+                key = "v" if r.startswith("v:") else "exc" if r.startswith("exc:") else "end" if r == "end" else None
+                if key:
+                    d[key] += 1
+                if key == "v" and st in FUT_STYLES + "poll" and hdr[3] in "st":
+                    moved_out += 1
             charged_at = {}       # source -> index of the access line that charged it last
             for li, l in enumerate(outs.get(str(c["id"]), [])):
                 if " ; " in l:
@@ -410,6 +524,10 @@ class AggSuite(Suite):
                     for w in evs:
                         if re.match(r"a\d+=", w):
                             charged_at[w[1:w.index("=")]] = li
+                    for w in evs:
+                        if re.match(r"k\d+=", w):
+                            lv_looks += 1
+                            lv_looks_tracked += 1 if hdr[3] in "st" else 0
                     for w in evs:
                         if re.match(r"r\d+=", w):
                             late += 1
@@ -425,8 +543,14 @@ class AggSuite(Suite):
                         results[w] += 1
                     elif w.startswith("exc:"):
                         results["exc"] += 1
-        return {"ops": ops, "sources_per_case": nsrc, "source_kinds": kinds, "modes": modes, "results": results,
-                "accesses_inside_one_consumer_coroutine(n next,i iterator,c co_await,f future+co_await,w future blocking)": instyles,
+        return {"ops": ops, "sources_per_case": nsrc, "source_kinds": kinds,
+                "modes(v int,a int+int arg,r int+tracked arg,s tracked VALUE type whose move empties the source,t tracked value+tracked arg)": modes,
+                "results": results,
+                "accesses_inside_one_consumer_coroutine(n next,i iterator,c co_await next,f co_await has_value,w if(val),x if(!val),d *val,q co_await val,j sync+value; capital = future re-used with result_of/<<)": instyles,
+                "results_by_access_style(poll = fnext)": by_style,
+                "yielded_lvalues_looked_at_again_by_their_source": lv_looks,
+                "yielded_lvalues_looked_at_again_that_are_move_sensitive_objects": lv_looks_tracked,
+                "move_sensitive_values_moved_out_of_the_future_by_the_consumer": moved_out,
                 "early_destructions": early, "destructions_waiting_for_inflight_sources": drained,
                 "destructions_by_a_running_coroutine_waiting_for_inflight_sources": codrained,
                 "argument_fetched_again_after_await": late,
@@ -448,15 +572,16 @@ class AggSuite(Suite):
         ended_result = None           # 'end' or 'exc:c' once the consumer saw the end
         pend = False                  # an access is outstanding
         pos = [(0, False)] * n
-        has_arg = mode in ("a", "r")
+        has_arg = mode in ("a", "r", "t")
         last_arg = {}                 # source -> the argument it received last
+        lv_cursor = [(0, 0)] * n      # per source: (next act to scan, yields before it) for the `yl` values
 
         prefix = [[0] for _ in range(n)]      # prefix[k][p] = number of yields among the first p acts of source k
 
         def produced(k, upto):
             pk = prefix[k]
             while len(pk) <= upto:
-                pk.append(pk[-1] + (1 if act_at(scripts[k], len(pk) - 1) == "y" else 0))
+                pk.append(pk[-1] + (1 if act_at(scripts[k], len(pk) - 1) in YIELDS else 0))
             return pk[upto]
 
         def thrown_codes():
@@ -468,9 +593,30 @@ class AggSuite(Suite):
                     res.append(int(act_at(scripts[k], p - 1)[1:]))
             return res
 
+        def next_lvalue(k):
+            """the value source k put into the next lvalue it yields (`yl` acts in script order)"""
+            p, ny = lv_cursor[k]
+            for _ in range(100000):
+                a = act_at(scripts[k], p)
+                if a is None:
+                    return None
+                p += 1
+                if a in YIELDS:
+                    ny += 1
+                    if a == "yl":
+                        lv_cursor[k] = (p, ny)
+                        return (k + 1) * 1000 + ny - 1
+            return None
+
         def on_result(r, where):
             nonlocal last_src, ended_result, pend
-            if r.startswith("v:"):
+            if r.startswith("v:") and not r[2:].isdigit():
+                # the consumer was handed a moved-from / destroyed object instead of a value
+                msgs.append("union: the consumer received a %s object instead of a value of a source (%s)"
+                            % ({"moved": "moved-from", "dead": "destroyed"}.get(r[2:], r[2:]), where))
+                pend = False
+                last_src = None
+            elif r.startswith("v:"):
                 v = int(r[2:])
                 k, j = v // 1000 - 1, v % 1000
                 if not (0 <= k < n):
@@ -553,6 +699,19 @@ class AggSuite(Suite):
                     msgs.append("arg-routing: `%s`: source %d fetched its argument again after an await and found %s, the argument routed to it was %s"
                                 % (op, k, {"dead": "a destroyed object", "moved": "a moved-from object"}.get(m.group(2), m.group(2)),
                                    last_arg.get(k)))
+            # every value a source yields is delivered, not consumed: a source that yields an lvalue it keeps using
+            # (accumulator, element of a stored script) finds it as it left it, whatever the consumer's access style
+            for m in (re.match(r"k(\d+)=(\w+)$", e) for e in evs):
+                if not m:
+                    continue
+                k = int(m.group(1))
+                if not 0 <= k < n:
+                    continue
+                want = next_lvalue(k)
+                if m.group(2) != str(want):
+                    msgs.append("union: `%s`: source %d yielded an lvalue holding %s (an object it keeps using) and found %s in it "
+                                "afterwards: the aggregate must deliver the sources' values, not take them away"
+                                % (op, k, want, {"moved": "a moved-from object", "dead": "a destroyed object"}.get(m.group(2), m.group(2))))
             expect_args = []
             if w[0] == "batch" and head[0] == "batch":
                 results = [x for x in head[1:] if not x.startswith("p=")]
@@ -568,7 +727,7 @@ class AggSuite(Suite):
             if w[0] in ACCESS and head[0] == w[0] and len(head) >= 2:
                 r = head[1]
                 if has_arg and r != "nomore" and ended_result is None:
-                    a = int(w[1])
+                    a = int(w[2] if w[0] == "pnext" else w[1])
                     if first_access:
                         expect_args = [(k, a) for k in range(n)]
                     elif last_src is not None:
@@ -624,21 +783,36 @@ class StressSuite(Suite):
         cases = []
         for i in range(n):
             ns = rng.choice([1, 2, 2, 3, 3, 4, 5])
-            mode = rng.choice(["v", "v", "v", "a", "r", "r"])
-            p_ar = 0.0 if mode == "v" else rng.choice([0.0, 0.5, 1.0])
+            mode = rng.choice(MODES)
+            p_ar = 0.0 if mode in "vs" else rng.choice([0.0, 0.5, 1.0])
+            p_yl = rng.choice([0.0, 0.5, 1.0, 1.0])
+            # a third of the cases: finite sources only, one of them throwing (after 0, 1, n values): the run reaches the
+            # end and the consumer's style has to report the exception
+            to_end = rng.random() < 0.33
             scripts = []
             for k in range(ns):
                 kind = rng.choice(["async-inf", "async-inf", "async-finite", "async-finite", "sync-finite", "sync-inf"])
+                if to_end:
+                    kind = rng.choice(["async-finite", "async-finite", "sync-finite"])
                 if k == 0 and kind.startswith("sync"):
                     kind = "async-" + kind.split("-")[1]
-                pre, cyc = gen_script(rng, kind, p_ar)
+                pre, cyc = gen_script(rng, kind, p_ar, p_yl, 0.5 if to_end else 0.25)
                 if not cyc and rng.random() < 0.5:      # longer finite sources
                     body = pre[:-1] if pre and pre[-1].startswith("t") else pre
                     tail = pre[len(body):]
                     pre = (body * rng.randint(2, 6))[:40] + tail
                 scripts.append((pre, cyc))
-            limit = rng.choice([20, 100, 300, 800])
-            style = rng.choice([0, 0, 2, 3, 3, 4] + ([1] if mode == "v" else []))
+            if to_end and rng.random() < 0.5 and not any(pre and pre[-1].startswith("t") for pre, _ in scripts):
+                k = rng.randrange(ns)
+                pre = scripts[k][0]
+                scripts[k] = (pre[:rng.choice([0, 1, len(pre)])] + ["t%d" % rng.randint(1, 9)], [])
+                if k == 0 and not any(a in ("a", "ar") for a in scripts[0][0]):
+                    scripts[0] = (["a"] + scripts[0][0], [])
+            limit = 800 if to_end else rng.choice([20, 100, 300, 800])
+            # 0 next()/value(), 1 iterator, 2 gen()+sync()+value(), 3 coroutine co_await next(), 4 coroutine blocking next(),
+            # 5 coroutine `val = gen(); while (co_await val.has_value()) { *val; val.result_of(gen); }`, 6 `if (!val) break; *val`,
+            # 7 coroutine `co_await gen()`, 8 `*gen()`, 9 `if (val) *val` on one future re-used with operator<<
+            style = rng.choice([0, 2, 3, 4, 5, 5, 6, 7, 8, 9] + ([1] if mode in "vs" else []))
             lines = [("case 0 agg %s %d %s" % (mode, ns, " ".join(script_text(*x) for x in scripts))).rstrip(),
                      "stress %d %d %d" % (limit, style, rng.randint(1, 10 ** 6))]
             if rng.random() < 0.5:
@@ -660,7 +834,7 @@ class StressSuite(Suite):
         for c in cases:
             hdr = c["lines"][0].split()
             modes[hdr[3]] = modes.get(hdr[3], 0) + 1
-            late += 1 if hdr[3] != "v" and any("ar" in parse_script(t)[0] + parse_script(t)[1] for t in hdr[5:]) else 0
+            late += 1 if hdr[3] in "art" and any("ar" in parse_script(t)[0] + parse_script(t)[1] for t in hdr[5:]) else 0
             nsrc[c["lines"][0].split()[4]] = nsrc.get(c["lines"][0].split()[4], 0) + 1
             w = c["lines"][1].split()
             styles[w[2]] = styles.get(w[2], 0) + 1
@@ -669,8 +843,21 @@ class StressSuite(Suite):
                 f = dict(FACT_RE.findall(o[0]))
                 res[f.get("result", "?")] = res.get(f.get("result", "?"), 0) + 1
                 values += int(f.get("got", 0)) if f.get("got", "0").isdigit() else 0
-        return {"sources_per_case": nsrc, "access_style(0 next,1 iterator,2 future,3 coroutine co_await,4 coroutine blocking next)": styles, "results": res,
-                "values_consumed": values, "modes(v no argument,a int,r tracked object)": modes,
+        exc_by_style = {}
+        lv_cases = 0
+        for c in cases:
+            o = outs.get(str(c["id"]), [])
+            hdr = c["lines"][0].split()
+            lv_cases += 1 if any("yl" in parse_script(t)[0] + parse_script(t)[1] for t in hdr[5:]) else 0
+            if o and dict(FACT_RE.findall(o[0])).get("result") == "exc":
+                st = c["lines"][1].split()[2]
+                exc_by_style[st] = exc_by_style.get(st, 0) + 1
+        return {"sources_per_case": nsrc,
+                "access_style(0 next,1 iterator,2 gen()+sync+value,3 coroutine co_await next,4 coroutine blocking next,5 coroutine co_await has_value + result_of,"
+                "6 if(!val),7 coroutine co_await gen(),8 *gen(),9 if(val) + operator<<)": styles, "results": res,
+                "exception_of_a_source_reported_by_style": exc_by_style,
+                "cases_with_sources_yielding_an_lvalue_they_look_at_again": lv_cases,
+                "values_consumed": values, "modes(v int,a int+int arg,r int+tracked arg,s tracked value,t tracked value+arg)": modes,
                 "cases_with_sources_fetching_their_argument_again_after_await": late,
                 "destroyed_with_resolver_threads_running": sum(1 for c in cases if c["lines"][2].startswith("sdestroy"))}
 
@@ -701,7 +888,7 @@ class StressSuite(Suite):
             msgs.append("arg-routing: %d times a source fetched its argument again after an await and did not find the argument "
                         "it had been given (every access of the stress run carries another argument)" % num("argbad"))
         infinite = any(cyc for _, cyc in scripts)
-        total = sum(sum(1 for a in pre if a == "y") for pre, _ in scripts)
+        total = sum(sum(1 for a in pre if a in YIELDS) for pre, _ in scripts)
         throws = any(pre and pre[-1].startswith("t") for pre, _ in scripts)
         if infinite or total >= limit:
             if f.get("result") != "cut" or num("got") != limit:
@@ -717,6 +904,10 @@ class StressSuite(Suite):
                 msgs.append("end: the aggregate ended while %d sources had not ended" % num("notended"))
             if f.get("result") == "exc" and not num("excok"):
                 msgs.append("exception: the reported exception was not thrown by any source")
+        kb = sum(int(x) for l in out for x in re.findall(r"keptbad=(\d+)", l))
+        if kb:
+            msgs.append("union: %d times a source that had yielded an lvalue it keeps using (accumulator, script element) found it "
+                        "changed afterwards: the aggregate must deliver the sources' values, not take them away" % kb)
         for l in out[1:]:
             ws = l.split()
             if ws and ws[0] in ("sdestroy", "end") and "hang" in ws[1:]:
@@ -730,8 +921,9 @@ class C14(Spec):
     pid = "C14"
     lean_modules = ["CoclsModel.Props.C14"]
     design_ref = "DESIGN.md §5 C14"
-    trusted_base = ["hand-written model lean/CoclsModel/Aggregator.lean tied to generator_aggregator.h by differential correspondence "
-                    "(harness/h_aggregator.cpp vs lean/Drivers/C14.lean) on generated source scripts and access sequences",
+    trusted_base = ["hand-written model lean/CoclsModel/Aggregator.lean (+ the value / access-style layer AggregatorValues.lean: where the yielded "
+                    "objects live, generator::unblock_future, the reading functions of future<T>) tied to generator_aggregator.h / generator.h / future.h "
+                    "by differential correspondence (harness/h_aggregator.cpp vs lean/Drivers/C14.lean) on generated source scripts and access sequences",
                     "the completion queue (queue.h, C09) abstracted as a FIFO whose parked popper is woken by the next push; "
                     "generator.h (C13) and the promise/future layer (C01/C02) taken as specified"]
     technique = "Lean 4 invariant proof (induction over all operation lists of a small-step model) + differential correspondence with the real headers + thread stress"
@@ -739,11 +931,17 @@ class C14(Spec):
                   "asynchronous sources interleave at every step): per-source order / exactly once, union at the end, ends iff all sources ended, "
                   "exception keeps the others and is rethrown last, argument routing (incl. every later fetch of the argument through the reference "
                   "the source holds: it finds the argument routed to it, never a destroyed object or another source's argument), destructor drain waits "
-                  "for every in-flight source in every destroying context and never aborts — for every "
+                  "for every in-flight source in every destroying context and never aborts; on the value / access-style layer (values are objects that live in the "
+                  "sources, the aggregate holds a pointer; nine documented access styles: next()/value(), iterator, co_await next(), and the future of gen() read by "
+                  "co_await has_value(), if(val), !val, *val, co_await val, sync()+value()): no style takes a value away from its source (a source finds the lvalue "
+                  "it yielded unchanged), the consumer reads exactly the delivered values, the end and a source's exception reach the consumer in every style "
+                  "(necessity witnesses: a moving unblock_future, a has_value() that is false for an exception) — for every "
                   "number of sources, every script (finite or infinite) and every operation list; as-is variants of the two repaired steps (/repo 2ec61ae, "
                   "2010fed) with witness theorems; the model is tied to the headers by running both on "
                   "generated cases (0-5 scripted sources, sync/iterator/future/coroutine access from plain code and from inside one long-running consumer "
-                  "coroutine (active coro_queue, blocking and co_await styles mixed), arguments of type int and of a non-trivially-copyable type whose "
+                  "coroutine (active coro_queue, blocking and co_await styles mixed; futures fresh or re-used with result_of / operator<<), VALUES of type int and of "
+                  "a move-sensitive tracked type (sources yielding temporaries or lvalues they look at again; the consumer moves the value out of the future), sources "
+                  "throwing after 0, 1, n values read to the end in every style, arguments of type int and of a non-trivially-copyable type whose "
                   "copies, moves and destruction are tracked, sources that fetch their argument again after an await, completions from the consumer "
                   "thread or a second thread, early destruction with in-flight sources from plain code and from a running coroutine, under ASan/LSan) "
                   "and diffing every line; property oracles run on the implementation trace")
